@@ -183,6 +183,10 @@ func checkC10(c *ctx) {
 	// empty thesaurus leaves an address of an earlier build in its tables)
 	zh.SynEmptyChance = 3
 	defer func() { zh.SynEmptyChance = 9 }()
+	if bad := longHistories(c); bad != "" {
+		c.Violation("C10 "+bad, false)
+		return
+	}
 	if bad := manyPostingsLists(c); bad != "" {
 		c.Violation("C10 "+bad, false)
 		return
@@ -440,6 +444,62 @@ func manyPostingsLists(c *ctx) string {
 	c.Count("histories_with_more_than_32768_postings_lists")
 	if bad != "" {
 		return "a batch of 40000 documents (40000 postings lists) followed, on the same pooled builder, by a batch of 36000 documents with 72000 postings lists: " + bad
+	}
+	return ""
+}
+
+// longHistories: a batch W with doc values on its last field, then n tiny batches (n around 255 and
+// 510: counters of one byte), then a batch V with the same field names but no doc values on the last
+// field - and an empty batch after a large one.  V must be what its batch dictates; the empty
+// segment reports zero bytes written like any empty build.
+func longHistories(c *ctx) string {
+	oldP := runtime.GOMAXPROCS(1)
+	defer runtime.GOMAXPROCS(oldP)
+	mk := func(id string, dvLast bool) zh.Batch {
+		var b zh.Batch
+		for d := 0; d < 2; d++ {
+			b = append(b, zh.Doc{Fields: []zh.Field{zh.IDField(fmt.Sprintf("%s%02d", id, d)),
+				{Name: "a", DV: true, Len: 1, Toks: []zh.Tok{{Term: "apple", Freq: 1}}},
+				{Name: "b", DV: dvLast, Len: 1, Toks: []zh.Tok{{Term: "blueberry", Freq: 1}}}}})
+		}
+		return b
+	}
+	tiny := zh.Batch{{Fields: []zh.Field{zh.IDField("t00")}}}
+	for _, n := range []int{253, 254, 255, 256, 509, 510, 511} {
+		w, _, err := zh.Build(mk("w", true), 1026)
+		must(err)
+		for k := 0; k < n; k++ {
+			s, _, err := zh.Build(tiny, 1026)
+			must(err)
+			s.Close()
+		}
+		vb := mk("v", false)
+		sb, obs, spec, err := buildObs(c, vb, 1026)
+		if err != nil {
+			return fmt.Sprintf("build after %d tiny builds failed: %v", n, err)
+		}
+		c.Case(fmt.Sprintf("long-history-%d", n), true)
+		c.Count("long_histories")
+		if d := partsDiffer(obs, spec, []int{pDVFields, pDV, pDicts, pFields}); len(d) > 0 {
+			return fmt.Sprintf("a batch with doc values on fields a and b, then %d batches of one document with nothing but _id, then a batch with doc values on field a only: the last segment differs from its batch in %v\n%s", n, d, describeDiff(obs, spec, []int{pDVFields, pDV, pDicts, pFields}))
+		}
+		sb.Close()
+		w.Close()
+	}
+	// an empty batch after a large one
+	big, _, err := zh.Build(zh.GenBatch(c.R, zh.RandOpts(c.R, 150, "g")), 1026)
+	must(err)
+	defer big.Close()
+	for k := 0; k < 3; k++ {
+		e, _, err := zh.Build(nil, 1026)
+		must(err)
+		if bw, ok := interface{}(e).(interface{ BytesWritten() uint64 }); ok && bw.BytesWritten() != 0 {
+			return fmt.Sprintf("an empty batch built after a batch of 150 documents reports BytesWritten() = %d; an empty build writes nothing (a fresh builder reports 0)", bw.BytesWritten())
+		}
+		if e.Count() != 0 {
+			return fmt.Sprintf("an empty batch built after a large one counts %d documents", e.Count())
+		}
+		e.Close()
 	}
 	return ""
 }
